@@ -777,6 +777,54 @@ func vSetOfC27(l []string) map[string]bool {
 	return m
 }
 
+// vMakeTwinsC27 saves a snapshot whose root tree holds the source directory node of orig
+// under two names (same subtree ID, same metadata); the summary counts both copies.
+func vMakeTwinsC27(e *vEnv, orig *vSnapC27, srcAbs string, names []string) (string, error) {
+	dir := orig.Nodes[srcAbs]
+	if dir == nil || dir.Subtree == nil {
+		return "", fmt.Errorf("source directory node not found")
+	}
+	var newID string
+	err := e.WithRepoRW(func(ctx context.Context, repo *repository.Repository) error {
+		if err := repo.LoadIndex(ctx, restic.NoopTerminalCounterFactory); err != nil {
+			return err
+		}
+		var root restic.ID
+		err := repo.WithBlobUploader(ctx, func(ctx context.Context, up restic.BlobSaverWithAsync) error {
+			tw := data.NewTreeWriter(up)
+			for _, n := range names {
+				node := *dir
+				node.Name = n
+				if err := tw.AddNode(&node); err != nil {
+					return err
+				}
+			}
+			var err error
+			root, err = tw.Finalize(ctx)
+			return err
+		})
+		if err != nil {
+			return err
+		}
+		sn := *orig.Sn
+		sn.Tree = &root
+		sn.Paths = []string{"/" + names[0], "/" + names[1]}
+		if sn.Summary != nil {
+			sum := *sn.Summary
+			sum.TotalFilesProcessed *= 2
+			sum.TotalBytesProcessed *= 2
+			sn.Summary = &sum
+		}
+		id, err := data.SaveSnapshot(ctx, repo, &sn)
+		if err != nil {
+			return err
+		}
+		newID = id.String()
+		return nil
+	})
+	return newID, err
+}
+
 func vKeysC27(m map[string]bool) []string {
 	var out []string
 	for k := range m {
@@ -846,9 +894,39 @@ func TestVerifC27Rewrite(t *testing.T) {
 		if len(orig.Nodes) != len(tr)+len(srcComps) {
 			t.Fatalf("harness: stored tree has %d entries, model %d + %d ancestors", len(orig.Nodes), len(tr), len(srcComps))
 		}
+		// twin directories: a snapshot whose root holds the source directory's tree under
+		// two names, i.e. two (and, nested, more) directories that share ONE tree blob.
+		// `copy`, `rewrite` and older clients produce such snapshots.
+		roots := []string{srcAbs}
+		twins := rapid.IntRange(0, 2).Draw(t, "twins") == 0
+		if twins {
+			perm := rapid.Permutation(vNamesC27).Draw(t, "twinnames")
+			names := []string{perm[0], perm[1]}
+			sort.Strings(names)
+			twinID, err := vMakeTwinsC27(e, orig, srcAbs, names)
+			if err != nil {
+				t.Fatalf("harness: twin snapshot: %v", err)
+			}
+			if orig, err = vLoadSnapC27(e, twinID); err != nil {
+				t.Fatal(err)
+			}
+			roots = []string{"/" + names[0], "/" + names[1]}
+			srcComps = srcComps[:1]
+			if len(orig.Nodes) != 2*(len(tr)+1) {
+				t.Fatalf("harness: twin tree has %d entries, want %d", len(orig.Nodes), 2*(len(tr)+1))
+			}
+		}
+		underRoot := func(p string) bool {
+			for _, r := range roots {
+				if strings.HasPrefix(p, r+"/") {
+					return true
+				}
+			}
+			return false
+		}
 		var below, dirsWithKids []string
 		for p, n := range orig.Nodes {
-			if strings.HasPrefix(p, srcAbs+"/") {
+			if underRoot(p) {
 				below = append(below, p)
 				if n.Type == data.NodeTypeDir {
 					for q := range orig.Nodes {
@@ -860,7 +938,7 @@ func TestVerifC27Rewrite(t *testing.T) {
 				}
 			}
 		}
-		below = append(below, srcAbs)
+		below = append(below, roots...)
 		sort.Strings(below)
 		sort.Strings(dirsWithKids)
 
@@ -868,9 +946,23 @@ func TestVerifC27Rewrite(t *testing.T) {
 		for r := 0; r < rounds; r++ {
 			ps := vGenPatSetC27(t, below, dirsWithKids, len(srcComps))
 			classes, key := vCheckRewriteC27(t.Fatalf, e, orig, ps)
+			classes = append(classes, fmt.Sprintf("twin-dirs=%v", twins))
+			if twins {
+				keep := vFilterC27(orig.Nodes, ps)
+				asym, removedAny := false, false
+				for p := range orig.Nodes {
+					if strings.HasPrefix(p, roots[0]+"/") && keep[p] != keep[roots[1]+p[len(roots[0]):]] {
+						asym = true
+					}
+					if !keep[p] {
+						removedAny = true
+					}
+				}
+				classes = append(classes, fmt.Sprintf("twins-filtered-differently=%v", asym), fmt.Sprintf("twins-untouched=%v", !removedAny))
+			}
 			st.Case(key, classes...)
 			if key != "" && st.WantSample() {
-				st.Sample(map[string]any{"tree": tr.String(), "source": srcAbs, "rewrite": ps, "kept": len(vFilterC27(orig.Nodes, ps)), "entries": len(orig.Nodes)})
+				st.Sample(map[string]any{"tree": tr.String(), "source": roots, "rewrite": ps, "kept": len(vFilterC27(orig.Nodes, ps)), "entries": len(orig.Nodes)})
 			}
 		}
 	})
